@@ -655,6 +655,18 @@ func genGP(cfg *config, r *rng, i int, s *sink) string {
 	if n > 12 {
 		n = 12
 	}
+	// modification times: distinct small numbers, or — a camera whose clock was never set, an archive
+	// unpacked without times — every file dated exactly the epoch (second 0 is a time like any other)
+	epoch := r.chance(1, 10)
+	if epoch {
+		s.count("gp.mtime.epoch")
+	}
+	mtOf := func(k int) int {
+		if epoch {
+			return 0
+		}
+		return 1000 + k
+	}
 	for k := 0; k < n+1; k++ {
 		name := pick(r, gpNameUniverse)
 		if r.chance(1, 5) {
@@ -668,7 +680,7 @@ func genGP(cfg *config, r *rng, i int, s *sink) string {
 		if r.chance(1, 8) {
 			kindc = "d"
 		}
-		ents = append(ents, fmt.Sprintf("%s:%s:%d", hexStr(name), kindc, 1000+len(ents)))
+		ents = append(ents, fmt.Sprintf("%s:%s:%d", hexStr(name), kindc, mtOf(len(ents))))
 	}
 	if r.chance(1, 8) {
 		// a long recording: a contiguous group that reaches chapter 10 and beyond
@@ -679,7 +691,7 @@ func genGP(cfg *config, r *rng, i int, s *sink) string {
 		}
 		hero5 := r.chance(1, 2)
 		if hero5 {
-			ents = append(ents, fmt.Sprintf("%s:f:%d", hexStr("GOPR0042.mp4"), 1000+len(ents)))
+			ents = append(ents, fmt.Sprintf("%s:f:%d", hexStr("GOPR0042.mp4"), mtOf(len(ents))))
 		}
 		for c := first; c < first+k; c++ {
 			name := fmt.Sprintf("GX%02d0042.mp4", c)
@@ -691,7 +703,7 @@ func genGP(cfg *config, r *rng, i int, s *sink) string {
 			}
 			if !seen[name] {
 				seen[name] = true
-				ents = append(ents, fmt.Sprintf("%s:f:%d", hexStr(name), 1000+len(ents)))
+				ents = append(ents, fmt.Sprintf("%s:f:%d", hexStr(name), mtOf(len(ents))))
 			}
 		}
 	}
@@ -776,6 +788,18 @@ func corpusGP(cfg *config) []string {
 		"osfs l:" + hexStr("GOPR0001.mp4") + ":1646370367,s:" + hexStr("GOPR0001.mp4") + ",d,h:" + hexStr("GOPR0001.mp4") + ":5:777777777,s:" + hexStr("GOPR0001.mp4") + ",r:" + hexStr("GOPR0001.mp4") + ",s:" + hexStr("GOPR0001.mp4"),
 		"osfs w:" + hexStr("a.mp4") + ",h:" + hexStr("a.mp4") + ":1111111:2222222,s:" + hexStr("a.mp4") + ",t:" + hexStr("gopro-process-") + ",d,r:" + hexStr("a.mp4") + ",s:" + hexStr("a.mp4"),
 	}
+	// a directory of exactly 256 entries, then of 512 (a listing read in batches must not trip over a
+	// whole number of batches), and a file dated exactly the epoch
+	var many []string
+	for k := 0; k < 256; k++ {
+		many = append(many, "w:"+hexStr(fmt.Sprintf("GX01%04d.mp4", k+1)))
+	}
+	ops = append(ops, "osfs "+strings.Join(many, ",")+",d")
+	for k := 256; k < 512; k++ {
+		many = append(many, "w:"+hexStr(fmt.Sprintf("GX01%04d.mp4", k+1)))
+	}
+	ops = append(ops, "osfs "+strings.Join(many, ",")+",d")
+	ops = append(ops, "osfs w:"+hexStr("a.mp4")+",h:"+hexStr("a.mp4")+":0:0,s:"+hexStr("a.mp4"))
 	// every single failing operation of one fixed scenario (fault enumeration in support of
 	// the correspondence; the all-schedules claim is the theorem)
 	base := "proc L=" + strings.Join([]string{hexStr("GOPR0001.mp4") + ":f:1001", hexStr("GP010001.mp4") + ":f:1002", hexStr("GH010003.mp4") + ":f:1003", hexStr("sub") + ":d:1004"}, ",") +
